@@ -51,7 +51,7 @@ def gen_cases(ctx, sch, n):
     for name in names:
         for k in range(per):
             cases.append({'cls': name, 'seed': ctx.rng.getrandbits(32)})
-    heavy = ['TransactionBody', 'Transaction', 'TransactionWitnessSet', 'TransactionOutput', 'ProposalProcedure', 'PoolParams',
+    heavy = ['ProtocolParamUpdate', 'TransactionBody', 'Transaction', 'TransactionWitnessSet', 'TransactionOutput', 'ProposalProcedure', 'PoolParams',
              'AuxiliaryData', 'ProtocolParamUpdate', 'VotingProcedures']
     while len(cases) < n:
         cases.append({'cls': ctx.rng.choice(heavy), 'seed': ctx.rng.getrandbits(32)})
@@ -63,7 +63,7 @@ def render(part):
     for i, c, r in part:
         items.append(f'({i}%nat, ({G.cstr(c["cls"])}, {G.r_pv(r["pv"])}, {G.chx(bytes.fromhex(r["cbor"]))}))')
     body = 'Definition cases : list (nat * (string * pv * bytes)) :=\n' + G.clist(items) + '.\n'
-    body += 'Eval vm_compute in (map fst (filter (fun c => match snd c with (cl, v, bs) => negb (c01_enc_ok schema v bs && c01_rt_ok schema cl bs) end) cases)).\n'
+    body += 'Eval vm_compute in (map fst (filter (fun c => match snd c with (cl, v, bs) => negb (c01_enc_ok schema v bs && c01_rt_exact schema cl v bs) end) cases)).\n'
     return body
 
 
@@ -93,7 +93,10 @@ def evaluate(cases, results, shard=120):
             continue
         impl_ok = r.get('decode') == 'ok' and r.get('eq') and r.get('reenc') == r['cbor']
         if not impl_ok:
-            ofail[i] = KNOWN_RETYPED if retyped_region(r) and r.get('decode') == 'ok' and r.get('reenc') == r['cbor'] else 'roundtrip'
+            if 'cost_models' in r.get('flags', []) and r.get('decode') == 'DeserializeException':
+                ofail[i] = 'cost-models-bare-dict'
+            else:
+                ofail[i] = KNOWN_RETYPED if retyped_region(r) and r.get('decode') == 'ok' and r.get('reenc') == r['cbor'] else 'roundtrip'
         if 'pv' in r:
             good.append((i, c, r))
         else:
@@ -151,7 +154,7 @@ def correspond(ctx, n=None):
 def search(ctx, mism):
     ctx.rng.seed(f'search-{ctx.seed}')
     r = correspond(ctx, 6000 if ctx.quick else 60000)
-    bad = [f for f in r['oracle_fail'] if f['region'] != KNOWN_RETYPED]
+    bad = [f for f in r['oracle_fail'] if f['region'] not in (KNOWN_RETYPED, 'cost-models-bare-dict')]
     return bad[0] if bad else None
 
 
